@@ -20,7 +20,8 @@
    complement, shown non-empty by C10_greedy_initial_refuted, and confined to dump 0 by C10_later_dumps_always. *)
 From Coq Require Import ZArith List Bool.
 From KV Require Import Base.Sx Gen.Generated Model.SensorToCat Model.SensorToCatSrc Model.SensorToCatPath
-  Model.SensorToCatTables Proofs.SensorToCatTablesP Proofs.SensorToCatMoreP
+  Model.SensorToCatTables Proofs.SensorToCatTablesP Proofs.SensorToCatMoreP Model.SensorToCatValues
+  Proofs.SensorToCatValuesP
   Proofs.SensorToCatP Proofs.SensorToCatInitP Proofs.SensorToCatLawsP Proofs.SensorToCatSrcP Proofs.SensorToCatTopP
   Proofs.SensorToCatPathP.
 Import ListNotations.
@@ -209,6 +210,39 @@ Theorem C10_categorical_decision : forall (p : option bool) (is_float : bool),
   decide_categorical_src p is_float = spec_categorical p is_float.
 Proof. exact decide_categorical_eq. Qed.
 Print Assumptions C10_categorical_decision.
+
+(* ================= value equality of array-valued (wrapped) sensors =================
+   The ids of the theorems above stand for sensor values; for array-valued sensors the code compares values with
+   ComparableArrayWrapper.__eq__ (model `caw_eq_src` over the regenerated branch condition; np.array_equal fixed by the
+   translator skeleton).  A value is (kind, shape, flat data). *)
+
+(* equal array values have the SAME SHAPE and the same elements (a broadcasting comparison would break exactly this:
+   repeat removal would drop a genuine change of value) *)
+Theorem C10_equal_arrays_same_shape : forall a b, is_nd a || is_nd b = true -> caw_eq_src a b = true ->
+  arr_shape a = arr_shape b /\ wdata a = wdata b /\ nan_free a = true.
+Proof. exact caw_eq_arrays. Qed.
+Print Assumptions C10_equal_arrays_same_shape.
+
+(* for NaN-free values of one sensor (no tuple next to a list) the code's equality IS "same shape, same elements" *)
+Theorem C10_value_equality_exact : forall a b, compatible a b = true -> nan_free a = true ->
+  caw_eq_src a b = arr_eqb a b.
+Proof. exact caw_eq_is_arr_eqb. Qed.
+Print Assumptions C10_value_equality_exact.
+
+(* the ids are the quotient of the values by that equality: same id iff same shape and same elements *)
+Theorem C10_value_ids_faithful : forall (u : list wv),
+  (forall x, In x u -> nan_free x = true) -> (forall x y, In x u -> In y u -> compatible x y = true) ->
+  forall x y i j, In x u -> In y u ->
+  (id_in caw_eq_src u i x = id_in caw_eq_src u j y <-> arr_shape x = arr_shape y /\ wdata x = wdata y).
+Proof. exact value_ids_faithful. Qed.
+Print Assumptions C10_value_ids_faithful.
+
+(* a value containing NaN is equal to nothing, not even to itself (hence never a "repeat": open finding F111) *)
+Theorem C10_nan_values_never_equal : forall a b, nan_free a = false -> caw_eq_src a b = false.
+Proof. exact caw_eq_nan. Qed.
+Print Assumptions C10_nan_values_never_equal.
+Definition C10_example_value_equality := ex_value_equality.
+Definition C10_example_shape_change := ex_shape_change_is_not_a_repeat.
 
 (* ================= the sensor property tables of the formats (regenerated from dataset.py, h5datav1/2/3.py,
    visdatav4.py) =================
